@@ -76,48 +76,70 @@ def parseReq (s : String) : Option Req :=
     pure { path := p, norm := n, method := m, host := h }
   | _ => none
 
-/-- run the build program on a stack of tables; returns op codes and the final stack -/
-def build : List String → List Table → List String → Option (List String × List Table)
+/-- run the build program on a stack of (table, frozen) pairs; returns op codes and the final stack.
+`XA|f|pfx|q` / `XA|b|pfx|q`: a mount attempt that is expected to be refused (`f`: on a frozen
+throw-away application, `b`: on the current parent with a bad prefix) — the sub-application stays
+on the stack, unchanged, for later use.  `XM|f|kind|d` / `XM|b`: same for add_domain (`b`: the
+domain was refused by `Domain(...)`: oracle). -/
+def build : List String → List (Table × Bool) → List String → Option (List String × List (Table × Bool))
   | [], st, codes => some (codes.reverse, st)
   | tok :: rest, st, codes =>
     match tok.splitOn "|", st with
-    | "R" :: m :: path :: hid :: rq, t :: st' =>
+    | "R" :: m :: path :: hid :: rq, (t, fz) :: st' =>
       match parseStr m, parseStr path, hid.toNat?, pairs rq with
       | some m, some path, some hid, some rq =>
-        match addRoute rq t m path hid with
-        | .ok t' => build rest (t' :: st') ("ok" :: codes)
+        match addRouteOn fz rq t m path hid with
+        | .ok t' => build rest ((t', fz) :: st') ("ok" :: codes)
         | .error e => build rest st (showErr e :: codes)
       | _, _, _, _ => none
-    | ["S", pfx, q, hid], t :: st' =>
+    | ["S", pfx, q, hid], (t, fz) :: st' =>
       match parseStr pfx, parseStr q, hid.toNat? with
       | some pfx, some q, some hid =>
-        match addStatic t pfx q hid with
-        | .ok t' => build rest (t' :: st') ("ok" :: codes)
+        match addStaticOn fz t pfx q hid with
+        | .ok t' => build rest ((t', fz) :: st') ("ok" :: codes)
         | .error e => build rest st (showErr e :: codes)
       | _, _, _ => none
-    | ["["], st => build rest (Table.empty :: st) codes
-    | ["F"], t :: st' => build rest (t.freeze :: st') codes
-    | ["A", pfx, q], s :: t :: st' =>
+    | ["["], st => build rest ((Table.empty, false) :: st) codes
+    | ["F"], (t, _) :: st' => build rest ((t.freeze, true) :: st') codes
+    | ["A", pfx, q], (s, _) :: (t, fz) :: st' =>
       match parseStr pfx, parseStr q with
       | some pfx, some q =>
-        match addSubapp FUEL t pfx q s with
-        | .ok t' => build rest (t' :: st') ("ok" :: codes)
-        | .error e => build rest (t :: st') (showErr e :: codes)
+        match addSubappOn fz FUEL t pfx q s with
+        | .ok t' => build rest ((t', fz) :: st') ("ok" :: codes)
+        | .error e => build rest ((t, fz) :: st') (showErr e :: codes)
       | _, _ => none
-    | ["M", kind, d], s :: t :: st' =>
+    | ["M", kind, d], (s, _) :: (t, fz) :: st' =>
       match parseStr d with
       | some d =>
-        if kind == "e" then build rest (addDomain t (.exact d) s :: st') ("ok" :: codes)
-        else if kind == "m" then build rest (addDomain t (.mask d) s :: st') ("ok" :: codes)
-        else none
+        if kind != "e" && kind != "m" then none else
+        let rule := if kind == "e" then Rule.exact d else Rule.mask d
+        match addDomainOn fz t rule s with
+        | .ok t' => build rest ((t', fz) :: st') ("ok" :: codes)
+        | .error e => build rest ((t, fz) :: st') (showErr e :: codes)
       | none => none
+    | ["XA", mode, pfx, q], (s, sf) :: (t, fz) :: st' =>
+      match parseStr pfx, parseStr q with
+      | some pfx, some q =>
+        if mode != "f" && mode != "b" then none else
+        match addSubappOn (mode == "f" || fz) FUEL (if mode == "f" then Table.empty else t) pfx q s with
+        | .ok t' => if mode == "f" then none else build rest ((t', fz) :: st') ("ok" :: codes)
+        | .error e => build rest ((s, sf) :: (t, fz) :: st') (showErr e :: codes)
+      | _, _ => none
+    | ["XM", "f", kind, d], (s, sf) :: (t, fz) :: st' =>
+      match parseStr d with
+      | some d =>
+        match addDomainOn true Table.empty (if kind == "e" then Rule.exact d else Rule.mask d) s with
+        | .ok _ => none
+        | .error e => build rest ((s, sf) :: (t, fz) :: st') (showErr e :: codes)
+      | none => none
+    | ["XM", "b"], _ :: _ :: _ => build rest st ("E_VALUE" :: codes)
     | _, _ => none
 
 def runTbl (useLinear : Bool) (toks : List String) : String :=
   let ops := toks.filter (fun t => !t.startsWith "Q|")
   let qs := toks.filter (fun t => t.startsWith "Q|")
-  match build ops [Table.empty] [], qs.mapM parseReq with
-  | some (codes, [t]), some reqs =>
+  match build ops [(Table.empty, false)] [], qs.mapM parseReq with
+  | some (codes, [(t, _)]), some reqs =>
     let f := if useLinear then linear FUEL t else resolve FUEL t
     s!"ops={",".intercalate codes} dump={dump t} res={";".intercalate (reqs.map (fun q => showResult (f q)))}"
   | _, _ => "bad-op"
